@@ -1,45 +1,86 @@
 (** C02 — An emission goes to the thread's scoped default, else to the global default.
-    Statements only; proofs in Dispatch/Proofs_C02.v, executable model and specification in Dispatch/Model.v.
+    Statements only; proofs in Dispatch/Proofs_C02.v and Dispatch/Proofs_Shape_C02.v, executable model and
+    specification in Dispatch/Model.v, what the translator read off the Rust source on this run in
+    coq/gen/Gen_dispatch.v (meaning: Dispatch/Shape.v, Dispatch/Source.v).
 
-    THIS FILE IS THE VARIANT FOR /repo AS IT IS NOW (finding F1 present, model variant [fx = false]).
-    The variant for the repaired dispatch.rs is Properties/C02F.v (same theorems without the [~ F1_class]
-    hypothesis and without the refutation); notes/C02.md says how to flip.
-
-    Reading guide.  [run false sm conf init h] are the observations of history [h] in the model of dispatch.rs as
-    it is; [aspec ainit h] is what the abstract specification — one scope stack per thread plus a write-once
-    global cell, nothing else — says about each op: [ADefault d] "if this op asks for the thread's default it is
-    handed d" (d = innermost live scope of that thread, else the global default if set, else the no-op dispatcher),
+    Reading guide.  [src_fx] is the variant of dispatch.rs that translators/dispatch_shape.py READ OFF THE SOURCE on
+    this run: [true] = get_default_slow, Entered::current, State::set_default and Drop for DefaultGuard never
+    populate the thread-local from the global default (fix aa353f7 of finding F1); anything else = [false], for which
+    the headline below is false (C02_unrepaired_variant_refuted), so this file stops compiling if the repair is
+    reverted.  [run src_fx sm conf init h] are the observations of history [h] in the model of dispatch.rs;
+    [aspec ainit h] is what the abstract specification — one scope stack per thread plus a write-once global cell,
+    nothing else — says about each op: [ADefault d] "if this op asks for the thread's default it is handed d"
+    (d = innermost live scope of that thread, else the global default if set, else the no-op dispatcher),
     [ASetGlobal ok] "set_global_default returns Ok iff the cell was empty", [ABad] "not expressible, ignored".
-    [agrees] compares an observation with that.  [Nested h]: guards are dropped innermost-first (LIFO).
-    [F1_class] is delimited by a ghost monitor that never looks at a thread-local: some thread first used the
-    dispatcher machinery (opened a scope, asked for its default while any scope was live anywhere, or called
-    get_current) BEFORE the global default existed, and later — after set_global_default, with no live scope of
-    its own, while some scope is live elsewhere (or via get_current) — asks for its default. *)
+    [agrees] compares an observation with that.  [Nested h]: guards are dropped innermost-first (LIFO). *)
 From Coq Require Import NArith List.
-From TV Require Import Dispatch.Model Dispatch.Proofs_C02.
+From TV Require Import Dispatch.Model Dispatch.Shape Dispatch.Source Dispatch.Proofs_C01 Dispatch.Proofs_C02 Dispatch.Proofs_Shape_C02.
+From TVGen Require Import Gen_dispatch.
 Import ListNotations.
 Local Open Scope N_scope.
 
-(** Headline: every properly nested history (any length, any number of threads / collectors, set_global_default
-    at any position or never, emissions filtered or not, every compile-time cap, every filter assignment)
-    outside the F1 class refines the specification. *)
+(** The source as read on this run: every shape recognised, everything the model takes for granted present
+    (fast path iff SCOPED_COUNT = 0, the counter is incremented / decremented, compare-exchange then store then
+    publish with three distinct constants, get_global tests for the published constant, with_default is a guard),
+    and the four thread-local sites all have the repaired shape. *)
+Theorem C02_source_recognised :
+  gen_dispatch_unrecognised = [] /\ dispatch_shape_ok gen_dispatch = true /\ fx_of_shape gen_dispatch = Some true.
+Proof. exact (conj source_dispatch_recognised (conj source_dispatch_ok source_is_repaired)). Qed.
+Print Assumptions C02_source_recognised.
+
+(** Headline, hypothesis-free: EVERY properly nested history (any length, any number of threads / collectors,
+    set_global_default at any position or never — in particular after a thread used a scope or merely emitted —,
+    emissions filtered or not, every compile-time cap, every filter assignment) refines the specification. *)
 Theorem C02_spec :
-  forall static_max conf h, Nested h -> ~ F1_class static_max conf h ->
-  Forall2 agrees (map fst (run false static_max conf init h)) (aspec ainit h).
-Proof. exact spec_refinement_unfixed. Qed.
+  forall static_max conf h, Nested h ->
+  Forall2 agrees (map fst (run src_fx static_max conf init h)) (aspec ainit h).
+Proof. exact spec_refinement_fixed. Qed.
 Print Assumptions C02_spec.
 
-(** The class is the exact boundary of the finding: a properly nested history refines the specification
-    if AND ONLY IF it is outside F1_class. *)
-Theorem C02_spec_iff_outside_F1 :
-  forall static_max conf h, Nested h ->
-  (Forall2 agrees (map fst (run false static_max conf init h)) (aspec ainit h) <-> ~ F1_class static_max conf h).
-Proof. exact F1_class_is_exact. Qed.
-Print Assumptions C02_spec_iff_outside_F1.
+(** Who RECEIVES an emission (C01 composed with C02), in terms of the specification's stacks only: after any
+    properly nested history, the collector installed by the innermost still-live scope of the emitting thread —
+    else the global default when one has been set — if its own filter accepts the callsite; otherwise nobody. *)
+Theorem C02_emission_receiver :
+  forall sm conf, (forall c, wf_collector (conf c)) ->
+  forall h t cs, Nested h ->
+  exists con, snd (step src_fx sm conf (final src_fx sm conf init h) (Emit t cs)) =
+              OEmit con (spec_receiver sm conf (final src_fx sm conf init h) (afinal ainit h) t cs).
+Proof. exact emission_receiver. Qed.
+Print Assumptions C02_emission_receiver.
 
-(** Known finding F1: the replay (T0 scope opened and closed; set_global_default(G); T1 holds a scope; T0 emits)
-    is properly nested, lies in the class, and the code hands T0 the no-op dispatcher where the specification says G. *)
-Theorem C02_F1_refuted :
+(** ... and with collectors that accept everything, exactly the specification's default (or nobody: "discarded"). *)
+Theorem C02_emission_receiver_unfiltered :
+  forall conf,
+  (forall c cs, c_reg (conf c) cs = always) -> (forall c fl cs, c_en (conf c) fl cs = true) -> (forall c, c_hint (conf c) = None) ->
+  forall h t cs, Nested h ->
+  exists con, snd (step src_fx (Some TRACE) conf (final src_fx (Some TRACE) conf init h) (Emit t cs)) =
+              OEmit con (match a_default (afinal ainit h) t with DCol c => Some c | DNone => None end).
+Proof. exact emission_receiver_unfiltered. Qed.
+Print Assumptions C02_emission_receiver_unfiltered.
+
+(** Non-vacuity of C02_spec: a nested two-thread history with nesting, a set_global_default that comes after
+    scoped use on another thread, and a second, failing, attempt. *)
+Theorem C02_nonvacuous :
+  Nested ex2_history /\
+  map fst (run src_fx (Some TRACE) (conf_of_list [all_pass; all_pass; all_pass]) init ex2_history) =
+  [ ONew 0; ONew 1; ONew 2; OUnit; OUnit; ODefault (DCol 1); OUnit; ODefault (DCol 0);
+    OSetGlobal true; OSetGlobal false; ODefault (DCol 2); OUnit ].
+Proof. exact (conj (nested_b_sound ex2_history eq_refl) ex2_fixed). Qed.
+Print Assumptions C02_nonvacuous.
+
+(** F1's replay (T0 scope opened and closed; set_global_default(G); T1 holds a scope; T0 emits) is a regression
+    case that holds: the emission reaches the global default. *)
+Theorem C02_F1_replay_holds :
+  Nested f1_history /\
+  nth 7 (map fst (run src_fx (Some TRACE) (conf_of_list [all_pass; all_pass; all_pass]) init f1_history)) OBad
+    = OEmit (Some (DCol 1)) (Some 1).
+Proof. exact (conj (nested_b_sound f1_history eq_refl) F1_replay_holds_when_fixed). Qed.
+Print Assumptions C02_F1_replay_holds.
+
+(** Why the repair is load-bearing: in the variant from before fix aa353f7 ([fx = false]: the thread-local caches
+    a clone of the global default) the same replay is properly nested and the code hands T0 the no-op dispatcher
+    where the specification says G — the headline is FALSE for [false]. *)
+Theorem C02_unrepaired_variant_refuted :
   Nested f1_history /\
   F1_class (Some TRACE) (conf_of_list [all_pass; all_pass; all_pass]) f1_history /\
   nth 7 (map fst (run false (Some TRACE) (conf_of_list [all_pass; all_pass; all_pass]) init f1_history)) OBad
@@ -48,34 +89,64 @@ Theorem C02_F1_refuted :
   ~ Forall2 agrees (map fst (run false (Some TRACE) (conf_of_list [all_pass; all_pass; all_pass]) init f1_history))
                    (aspec ainit f1_history).
 Proof. exact F1_refuted. Qed.
-Print Assumptions C02_F1_refuted.
+Print Assumptions C02_unrepaired_variant_refuted.
 
-(** Non-vacuity of C02_spec: a nested two-thread history outside the class with nesting, a set_global_default that
-    comes after scoped use on another thread, and a second, failing, attempt. *)
-Theorem C02_nonvacuous :
-  Nested ex2_history /\ ~ F1_class (Some TRACE) (conf_of_list [all_pass; all_pass; all_pass]) ex2_history /\
-  map fst (run false (Some TRACE) (conf_of_list [all_pass; all_pass; all_pass]) init ex2_history) =
-  [ ONew 0; ONew 1; ONew 2; OUnit; OUnit; ODefault (DCol 1); OUnit; ODefault (DCol 0);
-    OSetGlobal true; OSetGlobal false; ODefault (DCol 2); OUnit ].
-Proof. exact ex2_nonvacuous. Qed.
-Print Assumptions C02_nonvacuous.
+(** ... and exactly where: in that variant a properly nested history refines the specification if AND ONLY IF it is
+    outside [F1_class] (some thread used the dispatcher machinery before the global default existed and later, with
+    no live scope of its own, asks for its default on the slow path). *)
+Theorem C02_unrepaired_variant_exact_boundary :
+  forall static_max conf h, Nested h ->
+  (Forall2 agrees (map fst (run false static_max conf init h)) (aspec ainit h) <-> ~ F1_class static_max conf h).
+Proof. exact F1_class_is_exact. Qed.
+Print Assumptions C02_unrepaired_variant_exact_boundary.
 
-(** Scopes never affect another thread: an op of thread t (or a thread-less op) leaves every other thread's
+(** "Never affect another thread" (state): an op of thread t (or a thread-less op) leaves every other thread's
     thread-local default and guards untouched.  (Both variants.) *)
 Theorem C02_thread_isolation :
   forall fx sm conf s o u, op_thread o <> Some u -> tls (fst (step fx sm conf s o)) u = tls s u.
 Proof. exact thread_frame. Qed.
 Print Assumptions C02_thread_isolation.
 
-(** Scopes unwind LIFO and are restored on panic: opening n scopes and dropping the n guards innermost-first
-    (unwinding, or leaving nested with_default closures) restores every thread's stack. *)
+(** "Never affect another thread" (observably): after any properly nested history, an op of another thread (or a
+    thread-less op) other than set_global_default does not change the dispatcher handed to thread u — although it
+    may flip the process-wide fast/slow path (SCOPED_COUNT). *)
+Theorem C02_isolation_observable :
+  forall sm conf h o u,
+  Nested (h ++ [o]) -> op_thread o <> Some u -> (forall t c, o <> SetGlobal t c) ->
+  current (final src_fx sm conf init (h ++ [o])) u = current (final src_fx sm conf init h) u.
+Proof. exact isolation_observable. Qed.
+Print Assumptions C02_isolation_observable.
+
+(** ... and set_global_default does not change what a thread WITH a live scope is handed. *)
+Theorem C02_set_global_keeps_scoped_threads :
+  forall sm conf h t c u d stk,
+  Nested (h ++ [SetGlobal t c]) ->
+  a_stack (afinal ainit h) u = d :: stk ->
+  current (final src_fx sm conf init (h ++ [SetGlobal t c])) u = d /\ current (final src_fx sm conf init h) u = d.
+Proof. exact set_global_keeps_scoped_threads. Qed.
+Print Assumptions C02_set_global_keeps_scoped_threads.
+
+(** "Scopes nest and unwind in LIFO order, are restored on panic" (specification side): opening n scopes and
+    dropping the n guards innermost-first (unwinding, or leaving nested with_default closures) restores every
+    thread's stack. *)
 Theorem C02_panic_restores :
   forall ds a t, forallb (a_valid a) ds = true ->
   forall u, a_stack (afinal a (map (Open t) ds ++ repeat (Close t 0%nat) (length ds))) u = a_stack a u.
 Proof. exact unwind_restores. Qed.
 Print Assumptions C02_panic_restores.
 
-(** set_global_default succeeds exactly once, under EVERY interleaving of its three micro-steps
+(** ... and on the code's own state, from ANY state: the thread-local default, the guard list, SCOPED_COUNT, the
+    global default, the handles and the callsite caches are exactly what they were before the outermost scope. *)
+Theorem C02_panic_restores_state :
+  forall sm conf t ds s,
+  forallb (valid_disp s) ds = true ->
+  let s' := final src_fx sm conf s (map (Open t) ds ++ repeat (Close t 0%nat) (length ds)) in
+  (forall u, tls s' u = tls s u) /\ scoped s' = scoped s /\ global s' = global s /\ handle s' = handle s /\
+  next s' = next s /\ cache s' = cache s /\ max_level s' = max_level s /\ dispatchers s' = dispatchers s.
+Proof. exact unwind_restores_concrete. Qed.
+Print Assumptions C02_panic_restores_state.
+
+(** "set_global_default succeeds exactly once", under EVERY interleaving of its three micro-steps
     (compare-exchange; store the dispatcher; store INITIALIZED) for any number of concurrent attempts. *)
 Theorem C02_set_global_once :
   forall cand sched,
@@ -95,3 +166,33 @@ Theorem C02_set_global_some_success :
   exists w, sg_res s w = Some SgOk.
 Proof. exact set_global_some_success. Qed.
 Print Assumptions C02_set_global_some_success.
+
+(** The micro-step model's three states are the source's three constants, and its moves are the source's
+    compare-exchange / publish / get_global test, as read on this run. *)
+Theorem C02_global_init_numbers :
+  (forall g, cas_num gen_dispatch (ginit_num gen_dispatch g) =
+             match g with Uninit => Some (ginit_num gen_dispatch Initializing) | _ => None end) /\
+  publish_num gen_dispatch = Some (ginit_num gen_dispatch Initialized) /\
+  (forall g, global_visible_num gen_dispatch (ginit_num gen_dispatch g) = match g with Initialized => true | _ => false end) /\
+  (forall g g', ginit_num gen_dispatch g = ginit_num gen_dispatch g' -> g = g').
+Proof. exact source_ginit_moves. Qed.
+Print Assumptions C02_global_init_numbers.
+
+(** ... and at the granularity of whole calls, for EVERY history (nested or not, both variants): at most one call
+    ever returns Ok; the first call with a live handle does; every later one returns Err and changes nothing. *)
+Theorem C02_set_global_once_history :
+  forall fx sm conf h, (length (filter is_set_ok (map fst (run fx sm conf init h))) <= 1)%nat.
+Proof. exact set_global_once_history. Qed.
+Print Assumptions C02_set_global_once_history.
+
+Theorem C02_set_global_first_attempt_succeeds :
+  forall fx sm conf s t c, global s = None -> handle s c = true ->
+  step fx sm conf s (SetGlobal t c) = (set_global s (Some c), OSetGlobal true).
+Proof. exact set_global_first_attempt_succeeds. Qed.
+Print Assumptions C02_set_global_first_attempt_succeeds.
+
+Theorem C02_set_global_later_attempts_fail :
+  forall fx sm conf s t c g, global s = Some g -> handle s c = true ->
+  step fx sm conf s (SetGlobal t c) = (s, OSetGlobal false).
+Proof. exact set_global_later_attempts_fail. Qed.
+Print Assumptions C02_set_global_later_attempts_fail.
